@@ -181,6 +181,20 @@ def run(ctx):
                 sc = sl.Scenario(spec, pat, anames, bnames, os.path.join(scratch, spec.name), bobj=bobj, cut=cut, kind=ckind)
                 trace = sc.run()
                 ctx.case([spec.name, list(pat), anames, bnames, bobj, cut, ckind], nontrivial=na > 0 and nb > 0)
+                if (spec.is_async and not is_random and bobj is None and na > 0 and len(pat) > 1 and trace is not None
+                        and (ctx.thorough or spec.name in ("LaTeXToPDF", "LaTeXToPDF_fail"))):
+                    # the same scenario under the waiting schedule: every job has exited before the next value
+                    # is consumed, so a finished or FAILED job is noticed while a later value is handled
+                    scw = sl.Scenario(spec, pat, anames, bnames, os.path.join(scratch, spec.name), bobj=bobj, cut=cut,
+                                      kind=ckind, wait=True)
+                    tracew = scw.run()
+                    ctx.case([spec.name, "waiting", list(pat), anames, bnames, cut, ckind], nontrivial=nb > 0)
+                    for kind, sample, what in scw.problems:
+                        ctx.violation("%s:%s:%s:%s" % (spec.name, kind, what.split("(")[0], sample),
+                                      {"element": spec.name, "pattern": list(pat), "selected": anames,
+                                       "unselected": bnames, "exception": what, "schedule": "waiting"})
+                    if tracew is not None:
+                        scens.append((spec.name, scw, tracew))
                 for kind, sample, what in sc.problems:
                     ctx.violation("%s:%s:%s:%s" % (spec.name, kind, what.split("(")[0], sample),
                                   {"element": spec.name, "pattern": list(pat), "selected": anames,
